@@ -244,6 +244,32 @@ Theorem C13_active_provider_exact : forall (hash fl : bytes -> nat) (hist : list
 Proof. exact active_exact. Qed.
 Print Assumptions C13_active_provider_exact.
 
+(* End-to-end statement over the byte-level blocks.
+   Full statement (NOT proved; kept as the target):
+     forall parse (bounded), reg, b0, fields (sorted duplicate-free tokens per field, distinct
+     field names, token lengths < 2^32-1, physical blocks < 2^32 bytes), f, q, wfq q ->
+       sealed_search_bytes parse W32 reg b0 fields f q =
+       Some (spec_scan (spec_match parse q) (1 + number of tokens in the fields before f) (tokens of f)).
+   Proved part: for every selected entry range [sel] that is a contiguous cover whose packed blocks
+   serve the sorted dictionary dict (what C13_block_unpack_exact establishes for the entries
+   writeTokensBlocks emits): the real Provider over the packed blocks hands out exactly dict for
+   FirstTID..LastTID, and the narrowed Search over it equals the scan of every token.
+   Missing for the full statement: the slicing argument that the table entries of one field,
+   cut to SelectEntries' [l, r), are such a cover with MinVal/MaxVal as C13_sealed_equals_scan
+   assumes (first/last token of each chunk); that composition is exercised on every run by the
+   class rand-writer (sealed_search_bytes against the real SelectEntries + Provider + Search). *)
+Theorem C13_sealed_equals_scan_bytes_partial : forall parse : bytes -> option Z,
+  (forall s k, parse s = Some k -> (- maxkey <= k <= maxkey)%Z) ->
+  forall w disk sel first dict q, wfq q -> StronglySorted lt_bytes dict ->
+  cover sel -> first_tid sel = first -> last_tid_p sel = last_tid first dict ->
+  serves w disk sel (tok first dict) ->
+  match provider_dict w disk sel with
+  | Some d => search parse true (first_tid sel) d q
+  | None => None
+  end = Some (spec_scan (spec_match parse q) first dict).
+Proof. exact sealed_bytes_partial. Qed.
+Print Assumptions C13_sealed_equals_scan_bytes_partial.
+
 (* ---------------------------------------------------------------- non-vacuity (blocks) *)
 
 Definition f_ := 102%N.
@@ -304,3 +330,12 @@ Example C13_active_duplicate_in_batch :
   let st := tl_run (fun _ => 0) tl_empty [([0], [([f_; c; a], 1); ([f_; c; a], 1)])] in
   tl_vals st = [[]; [a]; [a]] /\ aget [] [f_] (tl_fields st) = [1; 2]%Z.
 Proof. vm_compute. split; reflexivity. Qed.
+
+(* the byte-level sealed lookup on a two-field dictionary: field g starts in the middle of the
+   physical block (StartIndex 3); 'a*' on g finds TIDs 4 and 5 *)
+Example C13_sealed_bytes_nonvacuous :
+  let fields := [([f_], 3%N, [[a]; [a; b]; [b]]); ([g_], 3%N, [[a]; [a; a]; [b]])] in
+  sealed_search_bytes (lookup []) W32 16384 0 fields [g_] (QLit [TText [a]; TStar]) = Some [4; 5]%Z /\
+  sealed_search_bytes (lookup []) W32 16384 0 fields [f_] (QLit [TText [a; b]]) = Some [2]%Z /\
+  spec_scan (spec_match (lookup []) (QLit [TText [a]; TStar])) 4 [[a]; [a; a]; [b]] = [4; 5]%Z.
+Proof. vm_compute. repeat split. Qed.
